@@ -14,6 +14,7 @@ package main
 import (
 	"fmt"
 	"go/constant"
+	"os"
 	"go/token"
 	"go/types"
 	"sort"
@@ -827,6 +828,9 @@ func (in *Interp) store(st *State, addr, v AV, pos token.Pos) {
 
 func (in *Interp) instrs(st *State, b, pred *ssa.BasicBlock, idx int, k kont) {
 	if in.Paths > in.MaxPaths || in.Steps > 40*in.MaxPaths*10 {
+		if !in.budgetHit && os.Getenv("GOCO_DEBUG") != "" {
+			fmt.Fprintf(os.Stderr, "budget: paths=%d max=%d steps=%d\n", in.Paths, in.MaxPaths, in.Steps)
+		}
 		in.budgetHit = true
 		return
 	}
